@@ -532,6 +532,7 @@ func cmdCrash(args []string) int {
 	par := fs.Int("par", 4, "recovery children in parallel")
 	maxImg := fs.Int("max-images", 2000, "per script")
 	file := fs.String("scripts", "", "ndjson of scripts to run instead")
+	dur := fs.Bool("dur", false, "also record the durability-level stream of the uncrashed runs for TraceCrash.tla")
 	keepImg := fs.Bool("keep-images", false, "keep all pristine images under <out>/images (debugging, replay)")
 	_ = fs.Parse(args)
 	mustMkdir(*out)
@@ -577,6 +578,8 @@ func cmdCrash(args []string) int {
 	ctl := gate.New()
 	ctl.Install()
 	var results []ScriptResult
+	var durs [][]DurEvent
+	var durIDs []string
 	nimg := 0
 	for si, s := range scripts {
 		r := rand.New(rand.NewSource(mix(s.Seed, 99)))
@@ -589,6 +592,11 @@ func cmdCrash(args []string) int {
 		im := &imager{ctl: ctl, dir: dir, tr: tr, out: join(imgroot, fmt.Sprintf("s%d", si)), max: *maxImg}
 		im.sink = func(img Image) { cr.submit(s, img, r) }
 		ctl.OnFsPre = im.onFsPre
+		if *dur {
+			ctl.ResetEvents()
+			ctl.Record = true
+			tr.Mirror = func(e rec.Event) { ctl.Note("api", e) }
+		}
 		withWatchdog("crash script "+s.ID, 1500*time.Second, func() {
 			if err := run.open(true); err != nil {
 				res.Err = err.Error()
@@ -604,6 +612,13 @@ func cmdCrash(args []string) int {
 			run.st.Close()
 		})
 		ctl.OnFsPre = nil
+		if *dur {
+			ctl.Record = false
+			if res.Err == "" {
+				durs = append(durs, durStream(ctl.Events()))
+				durIDs = append(durIDs, s.ID)
+			}
+		}
 		db, _, _, lv := countFiles(dir)
 		res.DBFiles, res.Levels = db, lv
 		res.Events = tr.Len()
@@ -635,10 +650,28 @@ func cmdCrash(args []string) int {
 		_ = enc.Encode(s)
 	}
 	sf.Close()
-	writeJSON(join(*out, "summary.json"), map[string]any{
+	summ := map[string]any{
 		"traces": w.Traces, "events": w.Events, "offsets": w.Offsets, "workers": 1, "keys": maxKeys,
 		"results": results, "outcomes": cr.outcomes, "meta": cr.meta, "images": nimg,
-	})
+	}
+	if *dur {
+		df, _ := os.Create(join(*out, "dur.ndjson"))
+		denc := json.NewEncoder(df)
+		var offs []int
+		n := 0
+		for _, d := range durs {
+			offs = append(offs, n+1)
+			_ = denc.Encode(DurEvent{Ev: "reset", Ks: []int{}, Ins: []int{}})
+			n++
+			for _, e := range d {
+				_ = denc.Encode(e)
+				n++
+			}
+		}
+		df.Close()
+		summ["dur_offsets"], summ["dur_events"], summ["dur_scripts"] = offs, n, durIDs
+	}
+	writeJSON(join(*out, "summary.json"), summ)
 	return 0
 }
 
